@@ -245,7 +245,17 @@ func c06Gen(t *rapid.T) advScenario {
 		case 0:
 			sc.Events = append(sc.Events, advEvent{AtNS: at, Kind: "link"})
 		case 1, 2, 3:
-			sc.Events = append(sc.Events, advEvent{AtNS: at, Kind: "rs", From: rapid.SampledFrom(c06Sources).Draw(t, "src"), SLLA: rapid.Bool().Draw(t, "slla")})
+			ev := advEvent{AtNS: at, Kind: "rs", From: rapid.SampledFrom(c06Sources).Draw(t, "src"), SLLA: rapid.Bool().Draw(t, "slla")}
+			if rapid.IntRange(0, 3).Draw(t, "uburst") == 0 {
+				// a burst of unicast solicitations (more than the 16-slot request queue holds), half of the
+				// time at the very instant a periodic tick is due: the tick must not get lost in the crowd
+				ev.N = rapid.SampledFrom([]int{17, 40, 60}).Draw(t, "uburstn")
+				if cfg.MinNS == cfg.MaxNS && rapid.Bool().Draw(t, "ontick") {
+					ev.AtNS = (at/cfg.MaxNS + 1) * cfg.MaxNS
+					at = ev.AtNS
+				}
+			}
+			sc.Events = append(sc.Events, ev)
 		default:
 			sc.Events = append(sc.Events, advEvent{AtNS: at, Kind: "rs", From: "::", N: rapid.SampledFrom([]int{1, 1, 1, 2, 5, 40}).Draw(t, "burst")})
 		}
